@@ -107,7 +107,16 @@ def _job(job):
     return out
 
 
-def _canon_job(name):
+def _heavy_job(name):
+    """(number of heavy atoms, canonical SMILES) of what the name converts to; None if nothing"""
+    kind, smi = real.smiles_of(name)
+    if kind != "ok" or not smi:
+        return None
+    m = chem.mol(smi)
+    return (m.GetNumHeavyAtoms(), chem.Chem.MolToSmiles(m)) if m is not None else None
+
+
+def _canon_str_job(name):
     """canonical isomeric SMILES of what the name converts to ('' if nothing)"""
     kind, smi = real.smiles_of(name)
     if kind != "ok" or not smi:
@@ -274,7 +283,7 @@ def run(rep, tier, driver):
                     if pre and pre[0].isdigit() and str(pos) in pre.split("-")[0].replace("d", "").replace("e", "").split(","):
                         continue        # the prefix uses the default position itself
                     pl.append((pre + sgr + tok + extra, pre + sgr + str(pos) + tok + extra, sgr, pre, tok))
-    plres = pmap(_canon_job, [a for a, _, _, _, _ in pl] + [b for _, b, _, _, _ in pl], chunk=8)
+    plres = pmap(_canon_str_job, [a for a, _, _, _, _ in pl] + [b for _, b, _, _, _ in pl], chunk=8)
     half = len(pl)
     for i, (a, b, sgr, pre, tok) in enumerate(pl):
         ra, rb = plres[i], plres[half + i]
@@ -290,6 +299,47 @@ def run(rep, tier, driver):
         if ra != rb:
             rep.violation("input", {"iupac": a, "explicit": b, "prefix": pre, "token": tok}, {"position_less": ra, "explicit": rb},
                           "the position-less spelling names the same molecule as the explicit one", key="positionless:%s" % a)
+    # carbon-bound groups ('<n>C<group>', a group written for a carbon without O/N) together with O-/N-bound groups on other positions,
+    # lower and higher, in both written orders: nothing may get lost - the heavy atoms each group adds alone add up, and the order of
+    # writing does not matter
+    add_jobs = []
+    for sgr, cms, oms in [("Glc", ["3CMe", "2CMe", "4CMe"], ["2S", "3S", "4S", "6S", "6Ac", "2Ac", "4P"]), ("Gal", ["3CMe", "4CMe"], ["2S", "6S", "6Ac", "4Ac"]),
+                          ("Man", ["2CMe", "3CMe"], ["4S", "6P", "3Ac", "6Ac"]), ("Neu", ["3F"], ["5Ac", "9Ac", "4S", "5Gc"]), ("Fuc", ["6F", "3CMe"], ["2S", "4Ac", "3S"])]:
+        for cm in cms:
+            for om in oms:
+                if om[0] == cm[0]:
+                    continue
+                add_jobs.append((sgr, [cm, om]))
+            for o1, o2 in itertools.combinations(oms, 2):
+                if len({cm[0], o1[0], o2[0]}) == 3 and rng.random() < (0.25 if tier == "quick" else 1.0):
+                    add_jobs.append((sgr, [cm, o1, o2]))
+    anames = sorted({sgr for sgr, _ in add_jobs} | {sgr + m for sgr, ms in add_jobs for m in ms} |
+                    {sgr + "".join(p) for sgr, ms in add_jobs for p in itertools.permutations(ms)})
+    aheavy = dict(zip(anames, pmap(_heavy_job, anames, chunk=8)))
+    for sgr, ms in add_jobs:
+        base = aheavy.get(sgr)
+        singles = [aheavy.get(sgr + m) for m in ms]
+        if not base or any(not x for x in singles):
+            rep.count("additivity-parent-or-single-not-converted")
+            continue
+        want_heavy = base[0] + sum(x[0] - base[0] for x in singles)
+        ref = None
+        for p in itertools.permutations(ms):
+            nm = sgr + "".join(p)
+            got = aheavy.get(nm)
+            rep.count("carbon-bound-additivity")
+            rep.case(canon=["additivity", nm], nontrivial=bool(got))
+            if not got:
+                rep.violation("input", {"iupac": nm, "parent": sgr, "mods": ms}, {"result": None}, {"heavy_atoms": want_heavy, "note": "each modification converts alone"},
+                              key="additivity-empty:" + nm)
+                continue
+            if got[0] != want_heavy:
+                rep.violation("input", {"iupac": nm, "parent": sgr, "mods": ms}, {"heavy_atoms": got[0], "smiles": got[1]},
+                              {"heavy_atoms": want_heavy, "note": "the heavy atoms every modification adds alone add up"}, key="additivity:" + nm)
+            if ref is None:
+                ref = (nm, got[1])
+            elif got[1] != ref[1]:
+                rep.violation("input", {"iupac": nm, "reference": ref[0]}, {"result": got[1]}, {"result": ref[1], "note": "order of writing must not matter"}, key="order:" + nm)
     # reactor Model in the loop: token dispatch / extract_bridge / set_fg of the first round, side_chains compared cell by cell
     import reactx
     extra_names = ["Glc2NAc", "GlcNAc", "Glc3OMe", "Gal6-O-Me-", "Glc2-N-Ac-", "Neu5Ac", "Neu5Gc", "NeuAc", "GlcA", "Glc-uronic", "GlcN", "FruN", "Glc3d", "Glc3e", "Glc2NS", "Glc6PCho",
